@@ -23,6 +23,9 @@ Definition two32 : N := 4294967296.
 (* uint32 subtraction with wrap-around, for a, b < 2^32 *)
 Definition sub32 (a b : N) : N := (a + two32 - b) mod two32.
 Definition add32 (a b : N) : N := (a + b) mod two32.
+Definition two64 : N := 18446744073709551616.
+(* uint64 multiplication *)
+Definition mul64 (a b : N) : N := (a * b) mod two64.
 
 Inductive res (A : Type) : Type :=
 | Ok (a : A)
@@ -227,7 +230,9 @@ Definition decode_stats_report (ch : common_header) (buf : bytes) : M bmp_msg :=
   '(h, b1) <- decode_pph buf ;;
   '(c, b2) <- rd 4 b1 ;;
   let count := be c in
-  if len b2 <? count * min_information_tlv_len then fail
+  (* uint64(StatsCount) * MinInformationTLVLen > uint64(buf.Len()): the product is taken in 64 bits
+     (mul64), where it cannot wrap for a 32 bit count (Proofs: mul64_exact); in 32 bits it would *)
+  if len b2 <? mul64 count min_information_tlv_len then fail
   else
     _ <- alloc (8 * count) ;;             (* make([]*InformationTLV, StatsCount) *)
     ts <- decode_stats (S (length b2)) 0 count b2 ;;
